@@ -44,6 +44,7 @@ func init() {
 }
 
 type c03Tr struct {
+	fail     error     // a test over the known atoms that is none of the known tests: the shape is not recognised
 	file     *ast.File // for helper methods called once: inlined
 	depth    int
 	recv     string          // receiver name
@@ -466,6 +467,11 @@ func (tr *c03Tr) cond(e ast.Expr) (string, bool) {
 			return k.class, true
 		}
 	}
+	// a test made of the known atoms only that is none of the known tests (two tests folded into one, a conjunct
+	// dropped): not rendered - the tie is unavailable rather than broken
+	if tr.fail == nil {
+		tr.fail = fmt.Errorf("a test over known atoms that is none of the known tests: %s", c03Str(e))
+	}
 	return "COther", false
 }
 
@@ -816,6 +822,9 @@ func (tr *c03Tr) inline(c *ast.CallExpr) ([]c03A, bool) {
 	sub := &c03Tr{file: tr.file, depth: tr.depth + 1, recv: c03RecvName(fn), recovers: tr.recovers, syncs: tr.syncs, oks: tr.oks}
 	acts, err := sub.block(fn.Body.List)
 	if err != nil {
+		if sub.fail != nil && tr.fail == nil {
+			tr.fail = sub.fail
+		}
 		return nil, false
 	}
 	if c03Has(acts, "ARet") {
@@ -953,6 +962,9 @@ func (tr *c03Tr) block(l []ast.Stmt) ([]c03A, error) {
 		if err != nil {
 			return nil, err
 		}
+		if tr.fail != nil {
+			return nil, tr.fail
+		}
 		out = append(out, a...)
 	}
 	return c03NormSeq(out), nil
@@ -982,21 +994,62 @@ func c03UpdateChan(fn *ast.FuncDecl) (string, error) {
 	default:
 		return "", fmt.Errorf("updateChan: loop condition %s", c03Str(loop.Cond))
 	}
-	if len(loop.Body.List) != 1 {
-		return "", fmt.Errorf("updateChan: the loop body is not one select")
-	}
-	sel, ok := loop.Body.List[0].(*ast.SelectStmt)
-	if !ok || len(sel.Body.List) != 2 {
-		return "", fmt.Errorf("updateChan: the loop body is not a select with two cases")
-	}
-	end := func(e ast.Expr) (string, bool) { // t.l.Front() / t.l.Back()
-		switch strings.ReplaceAll(c03Str(c03Unparen(e)), " ", "") {
+	// locals bound before the select:  e := t.l.Front() ;  v := e.Value.(*task)  /  v := t.l.Front().Value.(*task)
+	elemAlias, valAlias := map[string]string{}, map[string]string{}
+	endOf := func(e ast.Expr) (string, bool) {
+		e = c03Unparen(e)
+		if id, ok := e.(*ast.Ident); ok {
+			q, ok := elemAlias[id.Name]
+			return q, ok
+		}
+		switch strings.ReplaceAll(c03Str(e), " ", "") {
 		case recv + ".l.Front()":
 			return "QFront", true
 		case recv + ".l.Back()":
 			return "QBack", true
 		}
 		return "", false
+	}
+	valOf := func(e ast.Expr) (string, bool) {
+		e = c03Unparen(e)
+		if id, ok := e.(*ast.Ident); ok {
+			q, ok := valAlias[id.Name]
+			return q, ok
+		}
+		if ta, ok := e.(*ast.TypeAssertExpr); ok {
+			e = c03Unparen(ta.X)
+		}
+		se, ok := e.(*ast.SelectorExpr)
+		if !ok || se.Sel.Name != "Value" {
+			return "", false
+		}
+		return endOf(se.X)
+	}
+	stmts := loop.Body.List
+	for len(stmts) > 1 {
+		as, ok := stmts[0].(*ast.AssignStmt)
+		if !ok || as.Tok != token.DEFINE || len(as.Lhs) != 1 || len(as.Rhs) != 1 {
+			break
+		}
+		id, ok := as.Lhs[0].(*ast.Ident)
+		if !ok {
+			break
+		}
+		if q, ok := endOf(as.Rhs[0]); ok {
+			elemAlias[id.Name] = q
+		} else if q, ok := valOf(as.Rhs[0]); ok {
+			valAlias[id.Name] = q
+		} else {
+			break
+		}
+		stmts = stmts[1:]
+	}
+	if len(stmts) != 1 {
+		return "", fmt.Errorf("updateChan: the loop body is not one select")
+	}
+	sel, ok := stmts[0].(*ast.SelectStmt)
+	if !ok || len(sel.Body.List) != 2 {
+		return "", fmt.Errorf("updateChan: the loop body is not a select with two cases")
 	}
 	sent, removed, traceFirst, defReturns := "", "", "false", ""
 	for _, cc := range sel.Body.List {
@@ -1034,15 +1087,7 @@ func c03UpdateChan(fn *ast.FuncDecl) (string, error) {
 		if !ok || c03Str(snd.Chan) != recv+".done" {
 			return "", fmt.Errorf("updateChan: the case is not a send on %s.done", recv)
 		}
-		v := c03Unparen(snd.Value)
-		if ta, ok := v.(*ast.TypeAssertExpr); ok {
-			v = c03Unparen(ta.X)
-		}
-		se, ok := v.(*ast.SelectorExpr)
-		if !ok || se.Sel.Name != "Value" {
-			return "", fmt.Errorf("updateChan: sent value %s", c03Str(snd.Value))
-		}
-		if sent, ok = end(se.X); !ok {
+		if sent, ok = valOf(snd.Value); !ok {
 			return "", fmt.Errorf("updateChan: sent value %s", c03Str(snd.Value))
 		}
 		seenRemove := false
@@ -1065,7 +1110,7 @@ func c03UpdateChan(fn *ast.FuncDecl) (string, error) {
 				if seenRemove || len(k.Args) != 1 {
 					return "", fmt.Errorf("updateChan: two removals")
 				}
-				if removed, ok = end(k.Args[0]); !ok {
+				if removed, ok = endOf(k.Args[0]); !ok {
 					return "", fmt.Errorf("updateChan: removed element %s", c03Str(k.Args[0]))
 				}
 				seenRemove = true
